@@ -29,10 +29,10 @@ LEVELS = {"C10": "fault_enumeration"}
 COMPONENTS_REAL = ["nix front-end (src/, include/) from /repo's working tree", "nix HDF5 backend (backend/hdf5) from /repo's working tree",
                    "libhdf5 1.10.8 incl. its sec2 file driver and metadata cache", "boost (filesystem, regex, date_time, uuid)", "libstdc++",
                    "kernel tmpfs as passive byte store"]
-COMPONENTS_STUB = ["wall clock (time/gettimeofday/clock_gettime interposed: simulated clock)", "entropy for id generation (nix_verif_entropy hook / simulated clock)",
+COMPONENTS_STUB = ["wall clock (time/gettimeofday/clock_gettime interposed: simulated clock)", "entropy (std::random_device, getrandom, getentropy, /dev/urandom interposed at link time: one seeded stream per simulated process) and getpid (simulated pid, often shared between simulated processes)",
                    "disk system calls (open/pread/pwrite/ftruncate/flock/close interposed: logged, hashed, failed on demand, snapshotted)",
-                   "process kill = snapshot of the file bytes at the kill instant into a new inode (cross-checked against real SIGKILL of forked writers in the ids/xproc lane)",
-                   "HDF5 file-access property list (chunk cache / sieve buffer knob via --wrap=H5Fopen,H5Fcreate)"]
+                   "process kill = snapshot of the file bytes at the kill instant into a new inode (cross-checked against real SIGKILL of forked writers in the xkill lane, which is part of every C11 check)",
+                   "HDF5 tuning knobs, no format change: file-access list (chunk cache, sieve buffer, size of the metadata cache) via --wrap=H5Fopen,H5Fcreate; type-conversion buffer of dataset transfers via --wrap=H5Dread,H5Dwrite"]
 
 
 def log(*a):
